@@ -1,6 +1,7 @@
 // C07 -- Edwards25519 / Ristretto255 group and scalar arithmetic are exact and validated; hash-to-group maps.
 // Oracle: exact integer arithmetic (ref/bigint.hpp, ed25519.hpp, ristretto255.hpp, h2c.hpp).
 #include "vh_main.hpp"
+#include "giant.hpp"
 #include "vh_rc.hpp"
 #include "h2c.hpp"
 using namespace vh;
@@ -540,8 +541,75 @@ void explore_h2c_oversize(Ctx &ctx) {
     explore_h2c_impl(ctx, true);
 }
 
+// ------------------------------------------------------------------ hash-to-group of messages of 4 GiB and more (thorough, non-sanitizer build, first round)
+// expand_message_xmd hashes Z_pad || msg || l_i_b_str || 0 || DST' once (b_0); everything after that is a function of b_0.  b_0 is recomputed
+// with the library's streaming SHA-256 / SHA-512 over the sparse message (their correctness for such lengths is C04's claim), the rest by
+// the reference model.  The composition is validated against the full reference model on a short message in the same run.
+struct GH2CCase { int fn; int hash; size_t len; KV kv() const { KV k; k.s("kind", "giant_h2c").u("fn", fn).u("hash", hash).u("len", len); return k; } };
+uint64_t g_giant_skipped = 0;
+Bytes composed_h2c(int fn, int hash, const uint8_t *m, size_t mlen, const Bytes &dst) {
+    ref::HashId h = hash == 1 ? ref::H_SHA256 : ref::H_SHA512;
+    size_t hl = ref::hash_len(h), bl = ref::hash_block(h), len = fn == 1 ? 96 : fn == 0 ? 48 : 64;
+    Bytes dst_prime = dst; dst_prime.push_back((uint8_t) dst.size());
+    Bytes zpad(bl, 0), tail = { (uint8_t) (len >> 8), (uint8_t) len, 0 }; tail.insert(tail.end(), dst_prime.begin(), dst_prime.end());
+    Bytes b0(hl);
+    if (hash == 1) { crypto_hash_sha256_state st; crypto_hash_sha256_init(&st); crypto_hash_sha256_update(&st, zpad.data(), bl); crypto_hash_sha256_update(&st, m, mlen); crypto_hash_sha256_update(&st, tail.data(), tail.size()); crypto_hash_sha256_final(&st, b0.data()); }
+    else { crypto_hash_sha512_state st; crypto_hash_sha512_init(&st); crypto_hash_sha512_update(&st, zpad.data(), bl); crypto_hash_sha512_update(&st, m, mlen); crypto_hash_sha512_update(&st, tail.data(), tail.size()); crypto_hash_sha512_final(&st, b0.data()); }
+    Bytes uniform, prev(hl, 0);
+    for (size_t i = 1; uniform.size() < len; i++) {
+        Bytes x(hl); for (size_t j = 0; j < hl; j++) x[j] = b0[j] ^ prev[j];
+        x.push_back((uint8_t) i); x.insert(x.end(), dst_prime.begin(), dst_prime.end());
+        prev = ref::hash(h, x); uniform.insert(uniform.end(), prev.begin(), prev.end());
+    }
+    uniform.resize(len);
+    if (fn >= 2) return ref::ristretto_from_uniform(uniform);
+    auto fe = [&](size_t i) { return ref::fp_red(ref::u_from_be(ref::sub(uniform, i * 48, 48))); };
+    if (fn == 1) return ref::pt_encode(ref::pt_mul(ref::U(8), ref::pt_add(ref::h2c_map_to_edwards25519(fe(0)), ref::h2c_map_to_edwards25519(fe(1)))));
+    return ref::pt_encode(ref::pt_mul(ref::U(8), ref::h2c_map_to_edwards25519(fe(0))));
+}
+int call_h2c(int fn, uint8_t *out, const char *ctx, const uint8_t *m, size_t mlen, int hash) {
+    switch (fn) {
+    case 0: return crypto_core_ed25519_from_string(out, ctx, m, mlen, hash);
+    case 1: return crypto_core_ed25519_from_string_ro(out, ctx, m, mlen, hash);
+    case 2: return crypto_core_ristretto255_from_string(out, ctx, m, mlen, hash);
+    default: return crypto_core_ristretto255_from_string_ro(out, ctx, m, mlen, hash);
+    }
+}
+bool run_giant_h2c(const GH2CCase &c, std::string &msg) {
+    set_mask(F_ALL);
+    const char *ctx = "giant-h2c-context"; Bytes dst(ctx, ctx + strlen(ctx));
+    {   // the composition against the full model, short message
+        Bytes sm = { 1, 2, 3, 4, 5, 6, 7 }; ref::HashId h = c.hash == 1 ? ref::H_SHA256 : ref::H_SHA512;
+        Bytes full = c.fn <= 1 ? ref::h2c_edwards25519(h, c.fn == 1, sm, dst) : ref::h2c_ristretto255(h, sm, dst);
+        if (composed_h2c(c.fn, c.hash, sm.data(), sm.size(), dst) != full) { msg = "harness self-check: the composed hash-to-group model differs from the reference model"; return false; }
+    }
+    giant::Map M(c.len); if (!M.ok()) { g_giant_skipped++; return true; }
+    M.poke();
+    unsigned char out[32], trunc[32];
+    int r = call_h2c(c.fn, out, ctx, M.p, c.len, c.hash);
+    if (r != 0) FAIL("hash-to-group function %d returned %d for a message of %zu bytes", c.fn, r, c.len);
+    Bytes want = composed_h2c(c.fn, c.hash, M.p, c.len, dst), got(out, out + 32);
+    if (got != want) {
+        (void) !call_h2c(c.fn, trunc, ctx, M.p, (size_t) (uint32_t) c.len, c.hash);
+        FAIL("%s hash-to-group (%s, function %d) of a %zu-byte message differs from RFC 9380%s", c.fn <= 1 ? "edwards25519" : "ristretto255", c.hash == 1 ? "SHA-256" : "SHA-512", c.fn, c.len,
+             memcmp(out, trunc, 32) == 0 ? ": it equals the result for the first (length mod 2^32) bytes" : "");
+    }
+    return true;
+}
+void explore_giant_h2c(Ctx &ctx) {
+    if (!ctx.thorough() || !giant::fast_build() || !giant::first_round()) { ctx.notes["giant_h2c"] = "thorough tier, non-sanitizer build, first round only"; return; }
+    uint64_t idx = 0;
+    for (int fn = 0; fn < 4; fn++) for (int hash = 1; hash <= 2; hash++) {
+        if (!ctx.mine(idx++)) continue;
+        GH2CCase c{ fn, hash, ((size_t) 1 << 32) + 5 + (size_t) fn };
+        exec_case(ctx, c, run_giant_h2c, mix64(mix64(fn, hash), c.len), true);
+    }
+    ctx.notes["giant_h2c_skipped_no_memory"] = std::to_string(g_giant_skipped);
+}
+
 bool replay(const KV &k, std::string &msg) {
     std::string kind = k.gs("kind");
+    if (kind == "giant_h2c") { GH2CCase c{ (int) k.gu("fn"), (int) k.gu("hash"), (size_t) k.gu("len") }; return run_giant_h2c(c, msg); }
     if (kind == "ed") { EdCase c; c.op = 0; for (int i = 0; i < NEDOP; i++) if (k.gs("op") == EON[i]) c.op = i; c.p = k.gb("p"); c.q = k.gb("q"); c.n = k.gb("n"); return run_ed(c, msg); }
     if (kind == "ristretto") { RiCase c; c.op = 0; for (int i = 0; i < NRIOP; i++) if (k.gs("op") == RON[i]) c.op = i; c.p = k.gb("p"); c.q = k.gb("q"); c.n = k.gb("n"); c.pc = k.gs("pclass"); return run_ri(c, msg); }
     if (kind == "scalar_solved") { SvCase c{ (int) k.gu("op"), k.gb("a"), k.gb("b"), k.gb("c"), k.gb("want") }; return run_sv(c, msg); }
@@ -553,5 +621,5 @@ bool replay(const KV &k, std::string &msg) {
 }  // namespace
 
 std::vector<Sub> vh_subs() {
-    return { { "ed_sweep", explore_ed_sweep, replay }, { "ed_points", explore_ed, replay }, { "ed_solved_results", explore_solved_sums, replay }, { "ristretto", explore_ri, replay }, { "scalars", explore_sc, replay }, { "scalar_solved_results", explore_scalar_solved, replay }, { "h2c", explore_h2c, replay }, { "h2c_oversize_dst", explore_h2c_oversize, replay } };
+    return { { "ed_sweep", explore_ed_sweep, replay }, { "ed_points", explore_ed, replay }, { "ed_solved_results", explore_solved_sums, replay }, { "ristretto", explore_ri, replay }, { "scalars", explore_sc, replay }, { "scalar_solved_results", explore_scalar_solved, replay }, { "h2c", explore_h2c, replay }, { "giant_h2c", explore_giant_h2c, replay }, { "h2c_oversize_dst", explore_h2c_oversize, replay } };
 }
